@@ -175,7 +175,7 @@ def draw_program(cs, cfg):
         elif k == 2:    # compose
             i = cs.draw(len(pool), "i")
             a = pool[i]
-            e = cs.weighted([4, 4, 3, 3, 1, 2, 2, 1, 1, 1], "expr")
+            e = cs.weighted([4, 4, 3, 3, 1, 2, 2, 1, 1, 1, 2], "expr")
             if a["kind"] == "dense" and not a.get("sym") and a["p"] == a["q"] and a["p"] > 1 and cs.bool("herm_claim", 1, 3):
                 # a dense non-Hermitian square operator times itself, claimed Hermitian: checkable, so rejected
                 ops.append({"op": "matmul_hermclaim", "i": i, "j": i, "valid": False})
@@ -212,6 +212,13 @@ def draw_program(cs, cfg):
                 f = [2, -1, 0.5, -1.5, 3, 0][cs.draw(6, "scalar")]
                 ops.append({"op": "mul" if e == 5 else "rmul", "i": i, "f": f, "valid": True})
                 pool.append({"p": a["p"], "q": a["q"], "batch": a["batch"], "kind": "mul", "leaf": False, "jac": a["jac"]})
+            elif e == 10 and a["p"] == a["q"]:
+                # one operator object combined with its own adjoint: A + A.H, A - A.H, A.H - A
+                ops.append({"op": "selfcomb", "i": i, "how": cs.draw(3, "selfcomb"), "valid": True})
+                pool.append({"p": a["p"], "q": a["p"], "batch": a["batch"], "kind": "selfcomb", "leaf": False, "jac": a["jac"]})
+            elif e == 10:
+                ops.append({"op": "H", "i": i, "valid": True})
+                pool.append({"p": a["q"], "q": a["p"], "batch": a["batch"], "kind": "H", "leaf": False, "jac": a["jac"]})
             elif e == 7:
                 ops.append({"op": "aah", "i": i, "valid": True})
                 pool.append({"p": a["p"], "q": a["p"], "batch": a["batch"], "kind": "aah", "leaf": False, "jac": a["jac"]})
@@ -590,6 +597,16 @@ def execute(P, pre):
                     model, desc = MA * op["f"], "%s*(%s)" % (op["f"], dA)
                     absmodel = absp[op["i"]] * abs(op["f"])
                     res = (A * op["f"]) if k == "mul" else (op["f"] * A)
+                elif k == "selfcomb":
+                    A, MA, dA = pool[op["i"]]
+                    MAH = MA.transpose(-2, -1).conj()
+                    absmodel = absp[op["i"]] + absp[op["i"]].transpose(-2, -1)
+                    if op["how"] == 0:
+                        model, desc, res = MA + MAH, "(%s)+(%s).H" % (dA, dA), A + A.H
+                    elif op["how"] == 1:
+                        model, desc, res = MA - MAH, "(%s)-(%s).H" % (dA, dA), A - A.H
+                    else:
+                        model, desc, res = MAH - MA, "(%s).H-(%s)" % (dA, dA), A.H - A
                 elif k == "aah":
                     A, MA, dA = pool[op["i"]]
                     model, desc = torch.matmul(MA, MA.transpose(-2, -1).conj()), "(%s)@(%s).H[herm]" % (dA, dA)
